@@ -52,6 +52,13 @@ class TextData(Data):
                     [v.decode("utf-8") if isinstance(v, bytes) else v for v in values]
                 )
 
+            if isinstance(values, str) and self.association in (
+                DataAssociationEnum.VERTEX,
+                DataAssociationEnum.CELL,
+            ):
+                # the reader hands a single stored string back as a plain string
+                values = np.array([values])
+
             if isinstance(values, (np.ndarray, str, type(None))):
                 self._values = values
 
